@@ -179,7 +179,7 @@ func init() {
 	Register(&Rule{
 		ID:    "R-APPENDSHARE",
 		Doc:   "every append whose first argument is loop-invariant inside a loop (not the accumulator idiom x = append(x, …)) and whose result escapes the iteration (stored, passed to a call) is followed by a full slice expression with max = len before it escapes, or its base is such an expression: otherwise the retained slices of different iterations alias each other's elements",
-		Props: []string{"C04", "C03", "C01", "C02", "C13"},
+		Props: []string{"C04", "C03", "C01", "C02", "C13", "C08"},
 		Min:   map[string]int{"C04": 1},
 		Run:   runAppendShare,
 	})
@@ -195,7 +195,7 @@ func runAppendShare(c *core.Ctx) []core.Obligation {
 		var props []string
 		switch {
 		case strings.HasPrefix(name, "thrift."):
-			props = []string{"C04", "C13"}
+			props = []string{"C04", "C13", "C08"}
 		case strings.HasPrefix(name, "proto."):
 			props = []string{"C03"}
 		case strings.HasPrefix(name, "json.(decoder)") || strings.HasPrefix(name, "json.(*Decoder)"):
